@@ -59,7 +59,7 @@ type lfSite struct {
 func LFSites(rc *RC) ([]lfSite, map[string][]ir.Path) {
 	var sites []lfSite
 	paths := map[string][]ir.Path{}
-	for _, fi := range rc.P.SortedFuncs() {
+	for _, fi := range rc.P.AnalysisFuncs() {
 		if fi.Pkg != rc.P.Root || fi.Decl.Body == nil || lcGenerated[fi.File] || strings.HasPrefix(fi.File, "sparse") || strings.HasSuffix(fi.File, "_test.go") {
 			continue
 		}
@@ -82,12 +82,12 @@ func LFSites(rc *RC) ([]lfSite, map[string][]ir.Path) {
 						continue
 					}
 				}
-				for _, m := range lfAccess.FindAllStringSubmatch(n.Head, -1) {
+				for _, m := range lfAccess.FindAllStringSubmatch(stripFuncLits(n.Head), -1) {
 					if ir.HasWord(m[2], v) {
 						hit = m[1]
 					}
 				}
-				for _, m := range lfMask.FindAllStringSubmatch(n.Head, -1) {
+				for _, m := range lfMask.FindAllStringSubmatch(stripFuncLits(n.Head), -1) {
 					if ir.HasWord(m[1], v) {
 						hit = "mask"
 					}
@@ -183,7 +183,7 @@ func LF(rc *RC, floor int) {
 // temporaries do not matter; swapped arguments make each term mention the other tensor only.
 func IP(rc *RC, floor int) {
 	rc.S.Declare("IP", "iterator pairing: at every call copyDenseIter(dst, src, diter, siter) the destination iterator is nil or derived from dst and the source iterator is nil or derived from src (terms propagated along each path)", floor)
-	for _, fi := range rc.P.SortedFuncs() {
+	for _, fi := range rc.P.AnalysisFuncs() {
 		if fi.Pkg != rc.P.Root || fi.Decl.Body == nil || strings.HasSuffix(fi.File, "_test.go") || fi.Key == "tensor.copyDenseIter" {
 			continue
 		}
